@@ -4,4 +4,5 @@ MCSigned == TRUE
 MCOperands == -128..127
 MCCounts == -10..10
 MCDeviations == {}
+MCExplain == AllDeviations
 ====
